@@ -221,6 +221,34 @@ impl World {
         Ok(())
     }
 
+    /// In-place replacement of the backend of an existing mount (`restore_mount` with the mount's own index,
+    /// the way a backend is re-attached after a restore): the slot and the mount point now belong to the new backend.
+    pub fn replace(&mut self, path: &str) -> Result<(), Fail> {
+        let p = match self.m.pseudo.get(path).copied() {
+            Some(p) => p,
+            None => return Ok(()),
+        };
+        let mnt = match self.m.mounts.get(&p) {
+            Some(m) => Mnt { slot: m.slot, backend: m.backend, given: m.given, path: m.path.clone() },
+            None => return Ok(()),
+        };
+        let id = self.next_backend;
+        self.next_backend += 1;
+        let root_ino = self.m.backends[mnt.backend].0.root_ino;
+        let fs = NumFs::new(id, root_ino, IDS.to_vec());
+        self.trace.push(format!("restore_mount({}, slot {}, backend={} replacing backend {})", path, mnt.slot, id, self.m.backends[mnt.backend].0.id));
+        if let Err(e) = self.vfs.restore_mount(Box::new(fs.clone()), mnt.slot, path) {
+            return Err(("C07:replace-failed".into(), format!("restore_mount({}, {}) failed: {:?}", path, mnt.slot, e)));
+        }
+        fs.0.take();
+        self.m.backends[mnt.backend].0.take();
+        self.m.backends.push(fs);
+        let bidx = self.m.backends.len() - 1;
+        self.m.slots[mnt.slot as usize] = Some(bidx);
+        self.m.mounts.insert(p, Mnt { slot: mnt.slot, backend: bidx, given: mnt.given, path: mnt.path });
+        Ok(())
+    }
+
     pub fn umount(&mut self, path: &str) -> Result<(), Fail> {
         self.trace.push(format!("umount({})", path));
         let p = self.m.pseudo.get(path).copied();
@@ -791,6 +819,11 @@ fn history(args: &Args, rep: &mut Report, idx: u64, prop: &str) {
                 let path = *r.pick(PATHS);
                 rep.count("event:umount", 1);
                 w.umount(path)
+            }
+            5 if r.chance(1, 2) => {
+                let path = *r.pick(PATHS);
+                rep.count("event:replace-in-place", 1);
+                w.replace(path)
             }
             4 if r.chance(1, 6) => {
                 // burst of mount/umount cycles at one path: drives the index allocator around
